@@ -17,22 +17,25 @@ ID = "C14"
 LEVEL = "exploration"
 RULE = ("Hypothesis-generated constructive recipes of well-formed files (1-3 blocks; arrays of rank 1-3 with one "
         "descriptor per axis: set with/without labels, sampled, range with own ticks, range linked to the array "
-        "itself or to another 1-D array; atomic SI axis units from 19 unit families or none; tags with position, "
+        "itself or to another 1-D array, set / range linked to a string / float column of a data frame with or "
+        "without column units; atomic SI axis units from 19 unit families or none; tags with position, "
         "optional extent, 0-3 references of equal rank and unit families and one convertible unit per axis; "
         "multi-tags with n x rank / 1-D positions and same-shaped optional extents; features, groups, source "
         "trees, section trees with properties), built through the public API, then 0, 1 or 2 injections from a "
-        "catalogue of 16 kinds (drop/add descriptor, tick list too long/short/empty/repeated, reversed or "
-        "constant linked data, wrong label count, interval 0/negative/None, non-SI / compound / foreign / no "
-        "axis unit, empty type on any entity kind, tag position/extent/unit-list length, non-SI or foreign tag "
-        "unit, extra reference, replaced positions/extents arrays of wrong shape or empty) applied through the "
-        "public API at a random eligible object (second injection biased towards related objects); plus sweep "
-        "shards that apply EVERY eligible single injection to generated recipes. Oracle: reference validator over "
-        "the recipe (English definitions, own SI grammar): objects with a required condition are exactly the "
-        "keys of File.validate()['errors'], required messages <= reported <= required + allowed co-reports; "
-        "well-formed recipe => no errors; half of the cases are also validated after close through "
-        "nixio.cmd.validate (read-only reopen) and must list the same objects and messages. Non-trivial: recipe "
-        "has a (multi-)tag with references and units and >= 2 descriptor kinds, and either >= 1 injection or "
-        ">= 3 entity kinds; distinct by case hash.")
+        "catalogue of 15 kinds (drop/add descriptor; tick list too long/short/empty/repeated or explicit ticks "
+        "replacing a link; reversed or constant linked data; row appended to a linked frame; wrong label count; "
+        "interval 0/negative/None; non-SI / compound / foreign / no axis unit; empty type on any entity kind; "
+        "tag position / extent / unit-list length; non-SI or foreign tag unit; extra reference; replaced "
+        "positions / extents arrays of wrong shape or empty) applied through the public API at a random eligible "
+        "object (second injection biased towards related objects); plus sweep shards that apply EVERY eligible "
+        "single injection to generated recipes. Oracle: reference validator over the recipe (English "
+        "definitions, own SI grammar; dependants such as tags of a changed array are computed, not "
+        "whitelisted): objects with a required condition are exactly the keys of File.validate()['errors'], "
+        "required messages <= reported <= required + allowed co-reports; well-formed recipe => no errors and no "
+        "exception; a third of the cases is also validated after close through nixio.cmd.validate (read-only "
+        "reopen), which must list the same objects and messages. Non-trivial: recipe has a (multi-)tag with "
+        "references and units and >= 2 descriptor kinds, and either >= 1 injection or >= 3 entity kinds; "
+        "distinct by case hash.")
 ASSUMPTIONS = [
     "missing name / id / creation date cannot be produced through the public API and are out of domain",
     "a descriptor describes the data dimension of the same position; surplus descriptors describe nothing and "
@@ -47,6 +50,9 @@ ASSUMPTIONS = [
     "mismatches are allowed co-reports; empty positions array: the 2nd-dim mismatch is an allowed co-report",
     "array extents are >= 1 in recipes (an injected empty positions array is the only empty array)",
     "unit spellings are already sanitised and use no '^1' / '^+n' powers; non-SI tag and axis test strings differ",
+    "data frames are not validated themselves; a frame without units gives its linked range descriptors no "
+    "unit; frame columns hold strictly increasing floats / distinct strings, one row per sample",
+    "explicit ticks written over a linked descriptor leave it without a unit (the unit belonged to the link)",
     "warnings are ignored",
 ]
 SHRINK_HINTS = {"keep_keys": ["name", "k", "kind", "at", "blk", "arr", "tag", "mtag", "link", "positions",
@@ -710,11 +716,10 @@ def run_case(case, ctx):
                     rep2.setdefault(idmap.get(oid, "unknown:cli"), []).extend(msgs)
                 norm = lambda d: {k: sorted(v) for k, v in d.items()}  # noqa
                 if norm(rep2) != norm(reported):
-                    # only differences between the two front ends are reported here: what both get
-                    # wrong is already filed under the api sub-check
-                    compare(ctx, case, expected, rep2, "cli", injkinds, targets)
-                    ctx.violation("C14/cli/differs-from-api/%s" % ("+".join(injkinds) or "well-formed-file"),
-                                  case, {"api": reported, "cli": rep2})
+                    # the two front ends see the same file, so they must agree; what both get wrong
+                    # is already filed under the api sub-check
+                    cls = "object-set" if set(rep2) != set(reported) else "messages"
+                    ctx.violation("C14/cli/differs-from-api/%s" % cls, case, {"api": reported, "cli": rep2})
     finally:
         if not closed:
             f.close()
